@@ -632,6 +632,7 @@ func (cl *Client) produce(
 		// notified.
 		p.blocked.Add(1)
 		p.blockedBytes += userSize
+		verifEvent("block", r, int64(p.blocked.Load()), p.blockedBytes)
 		p.mu.Unlock()
 
 		cl.cfg.logger.Log(LogLevelDebug, "blocking Produce because we are either over max buffered records or max buffered bytes",
@@ -657,6 +658,7 @@ func (cl *Client) produce(
 			}
 			p.blocked.Add(-1)
 			p.blockedBytes -= userSize
+			verifEvent("unblock", r, int64(p.blocked.Load()), p.blockedBytes)
 		}()
 
 		drainBuffered := func(err error) {
@@ -708,6 +710,7 @@ func (cl *Client) produce(
 	}
 	p.bufferedRecords++
 	p.bufferedBytes += userSize
+	verifEvent("admit", r, p.bufferedRecords, p.bufferedBytes)
 	p.mu.Unlock()
 
 	// Set at buffer time, before any produce reaches the broker, so this can
@@ -865,6 +868,7 @@ func (cl *Client) finishRecordPromise(pr promisedRec, err error, beforeBuffering
 	p.bufferedBytes -= userSize
 	p.bufferedRecords--
 	broadcast = p.blocked.Load() > 0 || p.bufferedRecords == 0 && p.flushing.Load() > 0
+	verifEvent("finish", pr.Record, p.bufferedRecords, p.bufferedBytes)
 	p.mu.Unlock()
 
 	return broadcast
